@@ -4,6 +4,7 @@
 import RapidModel.Minimize
 import RapidProofs.MinimizeExact
 import RapidProofs.PassFix
+import RapidProofs.TranslatedMinEq
 
 namespace Rapid.C12
 
@@ -27,6 +28,20 @@ example : (minimize 1000 (fun x => x ≥ 37)).1 = 37 := by decide
     2^64 thresholds and all starting values (the tests sample 100) -/
 theorem minimize_reaches_threshold (u θ : UInt64) (h : θ ≤ u) : (minimize u (fun x => decide (θ ≤ x))).1 = θ :=
   minimize_exact u θ h
+
+/-- **`minimize` of /repo** (shrink.go: `minimize`, `minimizer.accept/rShift/unsetBits/sortBits/binSearch`, translated
+    from the working tree on every run) terminates and returns the result of the model's `minimize`, for every start
+    value and every predicate (the label the source hands to the predicate is ignored by it) -/
+theorem source_minimize (u : UInt64) (cond : UInt64 → Bool) (fuel : Nat) (hf : 130 < fuel) :
+    Translated.minimize u (fun x _ => cond x) fuel = .ok (minimize u cond).1 :=
+  tr_minimize u cond fuel hf
+
+/-- exactness, for the source: every threshold `θ ≤ u` is found exactly -/
+theorem source_minimize_reaches_threshold (u θ : UInt64) (h : θ ≤ u) (fuel : Nat) (hf : 130 < fuel) :
+    Translated.minimize u (fun x _ => decide (θ ≤ x)) fuel = .ok θ := by
+  have := tr_minimize u (fun x => decide (θ ≤ x)) fuel hf
+  rw [minimize_reaches_threshold u θ h] at this
+  exact this
 
 /-- `minimize u cond` asks `cond` only about values below `u`: result and probe sequence are
     determined by `cond` on `[0, u)` -/
